@@ -54,6 +54,32 @@ class OutOfRange(Exception):
     pass
 
 
+def c_int_typed(s):
+    """Does the C expression for *s* have type int?  Integer literals are int; the variables are
+    long long and pull arithmetic up to their type -- but a shift has the type of its LEFT operand,
+    and comparisons / logical operators yield int."""
+    t = s[0]
+    if t in ("int", "bool"):
+        return True
+    if t in ("Variable", "float"):
+        return False
+    if t in ("LeftShift", "RightShift"):
+        return c_int_typed(s[1])
+    if t in ("Comparison", "LogicalNot", "LogicalAnd", "LogicalOr"):
+        return True
+    if t == "If":
+        return c_int_typed(s[2]) and c_int_typed(s[3])
+    if t == "CommonSubexpression":
+        return c_int_typed(s[1])
+    if t in ("Call", "Min", "Max"):
+        return False                # harness macros / long long functions
+    kids = [c for c in s[1:] if isinstance(c, tuple) and c and isinstance(c[0], str)]
+    flat = []
+    for c in kids:
+        flat += list(c[1:]) if c[0] == "tuple" else [c]
+    return bool(flat) and all(c_int_typed(c) for c in flat)
+
+
 class CRef(refsem.Ref):
     """Reference evaluator that refuses environments outside the C-expressible range (negative
     operands of // % << >>, zero denominators, overflow, non-finite)."""
@@ -68,6 +94,8 @@ class CRef(refsem.Ref):
             return v
         if isinstance(v, int) and abs(v) > LIMIT:
             raise OutOfRange()
+        if isinstance(v, int) and abs(v) >= 2 ** 31 and c_int_typed(s):
+            raise OutOfRange()      # this subtree has C type int (32 bit), not the variables' type
         if isinstance(v, float) and (v != v or abs(v) > 1e15):
             raise OutOfRange()
         if isinstance(v, complex):
@@ -665,7 +693,8 @@ class C14(Check):
         "environments are restricted to the range the statement names: non-negative operands of "
         "// % << >>, non-zero denominators, |values| < 2^40, integer constants in the integer "
         "fragment and float constants in the floating one, min/max with two arguments (harness "
-        "macros), abs() as the only call; pow() yields a C double, so a power with an exponent "
+        "macros), abs() as the only call; a subtree without variables, and a shift whose left "
+        "operand is one, has C type int: its value stays below 2^31; pow() yields a C double, so a power with an exponent "
         "other than 0/1/2 is not placed under the integer-only operators // % << >> & | ^ ~",
         "gcc -O0 -fwrapv -std=gnu11 as the C semantics; doubles compared with relative tolerance "
         "1e-9",
